@@ -190,9 +190,11 @@ def safe_str(value) -> str:
     :return: a string of the value
     """
     try:
-        return str(value)
+        text = str(value)
     except Exception:
-        return f'{type(value)}@{id(value)}'
+        text = f'{type(value)}@{id(value)}'
+    # the text is sent as UTF-8: what cannot be encoded (lone surrogates) is escaped, else the whole snapshot is lost
+    return text.encode('utf-8', 'backslashreplace').decode('utf-8')
 
 
 def variable_to_string(variable_type, var_value):
